@@ -190,6 +190,7 @@ class History:
         rng, py4hw, R, ctx = self.rng, self.py4hw, self.R, self.ctx
         fams = [rng.choice(L.FAMILIES) for _ in range(rng.randint(1, 3))]
         if self.mode == 'exc': fams[0] = 'bad'
+        elif self.seed % 3 == 0: fams[0] = 'clk2'          # every third history has a circuit with several clock domains
         cseeds = [rng.randrange(10 ** 6) for _ in fams]
         self.A = [L.build(f, s) for f, s in zip(fams, cseeds)]        # the circuits of the history
         self.B = [L.build(f, s) for f, s in zip(fams, cseeds)]        # pristine copies: never simulated, never asked before
@@ -319,6 +320,16 @@ class History:
                                {'got': res[1][:300] if res[0] == 'exc' else None, 'expected': res2[1][:300] if res2[0] == 'exc' else None,
                                 'first_difference': first_diff(res[1], res2[1]) if res[0] == res2[0] == 'ok' else None,
                                 'object': target.getFullPath()}); break
+            # oracle 1b: the same explicit object asked from generators built on OTHER roots (the block itself, the top):
+            # the generator's own object is only the default argument, it must not enter the text
+            for other_root in ([target] if target is not objs[rootpath] else []) + ([objs['']] if objs[''] is not objs[rootpath] else []):
+                res5 = fresh_call(py4hw, R, other_root, op, target, None if pre is None else list(pre))
+                if not same(res, res5):
+                    self.violation('the answer for a block depends on the object the generator was built on',
+                                   {'object': target.getFullPath(), 'generator_root': objs[rootpath].getFullPath(), 'other_root': other_root.getFullPath(),
+                                    'got': res[1][:300] if res[0] == 'exc' else None, 'expected': res5[1][:300] if res5[0] == 'exc' else None,
+                                    'first_difference': first_diff(res[1], res5[1]) if res[0] == res5[0] == 'ok' else None}); break
+            if self.fail: break
             # oracle 2: freshly built, never simulated copy of the circuit (other object identities)
             objsB = B[ci].objs()
             res3 = fresh_call(py4hw, R, objsB[rootpath], op, None if path is None else objsB[path],
